@@ -23,7 +23,11 @@ def check_c18(ctx):
     import re
     remote = re.compile(r"^(\w+\.)+\w+(/[\w-]+){2}")
     nremote = len(events)
-    events = [e for e in events if not (e["e"] == "imp" and remote.match("/".join(e.get("target") or [])))]
+    def in_root(e):
+        # the reader sees the path below the root
+        t, r = e.get("target") or [], e.get("root") or []
+        return "/".join(t[len(r):] if t[:len(r)] == r else t)
+    events = [e for e in events if not (e["e"] == "imp" and (remote.match("/".join(e.get("target") or [])) or remote.match(in_root(e))))]
     nremote -= len(events)
     # trace ids must be unique across shards
     for i, e in enumerate(events):
